@@ -46,6 +46,7 @@ type c14Reader struct {
 	frames []c14Frame
 	conn   net.Conn
 	conns  int
+	silent net.Conn // the connection on which the reader has stopped answering (a dead peer that keeps the socket open)
 }
 
 var c14StatusOK = []byte{0x01, 0x1F, 0x00, 0x08, 0x00, 0x00, 0x00, 0x00}
@@ -106,6 +107,12 @@ func (r *c14Reader) serve(conn net.Conn) {
 		payload := make([]byte, ln-10)
 		if _, err := io.ReadFull(conn, payload); err != nil {
 			return
+		}
+		r.mu.Lock()
+		mute := r.silent == conn
+		r.mu.Unlock()
+		if mute {
+			continue
 		}
 		isFence := typ == 1023 && len(payload) >= 5 &&
 			binary.BigEndian.Uint32(payload) == c14FenceVendor && payload[4] == c14FenceSubtype
@@ -201,6 +208,8 @@ type c14Answer struct {
 	Fence    bool       `json:"fence"`
 	Consts   *c14Consts `json:"consts,omitempty"`
 	Note     string     `json:"note,omitempty"`
+	Conn     int        `json:"conn"`
+	Elapsed  int64      `json:"elapsed_ms,omitempty"`
 }
 
 type c14Consts struct {
@@ -244,6 +253,23 @@ func c14Value(v c14Val) (interface{}, error) {
 		return x, nil
 	}
 	return nil, fmt.Errorf("unknown value kind %q", v.K)
+}
+
+// dumpConsts reads the constants and the options of the device's CURRENT llrp.Client from the running code
+func dumpConsts(dev *LLRPDevice) *c14Consts {
+	dev.clientLock.RLock()
+	cl := dev.client
+	dev.clientLock.RUnlock()
+	k := &c14Consts{
+		KeepAliveIntervalMs: keepAliveInterval.Milliseconds(),
+		MaxMissedKAs:        int64(maxMissedKAs),
+		ClientTimeoutMs:     -1,
+		SendTimeoutMs:       sendTimeout.Milliseconds(),
+	}
+	if cl != nil {
+		k.ClientTimeoutMs = time.Duration(reflect.ValueOf(cl).Elem().FieldByName("timeout").Int()).Milliseconds()
+	}
+	return k
 }
 
 func TestVerifC14(t *testing.T) {
@@ -378,44 +404,74 @@ func TestVerifC14(t *testing.T) {
 			if !ok {
 				ans.Note = "no SetReaderConfig seen after connect"
 			}
-			dev.clientLock.RLock()
-			cl := dev.client
-			dev.clientLock.RUnlock()
-			ans.Consts = &c14Consts{
-				KeepAliveIntervalMs: keepAliveInterval.Milliseconds(),
-				MaxMissedKAs:        int64(maxMissedKAs),
-				ClientTimeoutMs:     time.Duration(reflect.ValueOf(cl).Elem().FieldByName("timeout").Int()).Milliseconds(),
-				SendTimeoutMs:       sendTimeout.Milliseconds(),
-			}
-		case "reconnect":
-			// the reader drops the connection; the device redials and must configure keep-alives again
+			ans.Consts = dumpConsts(dev)
+		case "reconnect", "silent":
+			// "reconnect": the reader drops the connection; "silent": the reader stops answering and sending but
+			// keeps the socket open. Either way the device must notice, replace its client, redial and configure
+			// keep-alives again; the options of the REPLACEMENT client are dumped like those of the first one.
 			rd.mu.Lock()
 			conn, before := rd.conn, rd.conns
+			if c.K == "silent" {
+				rd.silent = conn
+			}
 			rd.mu.Unlock()
-			if conn != nil {
+			if conn != nil && c.K == "reconnect" {
 				conn.Close()
 			}
-			deadline := time.Now().Add(20 * time.Second)
+			start := time.Now()
+			budget := 40 * time.Second
+			if c.K == "silent" {
+				budget = 100 * time.Second
+			}
+			deadline := start.Add(budget)
+			redialed := false
 			for time.Now().Before(deadline) {
 				rd.mu.Lock()
 				n := rd.conns
 				rd.mu.Unlock()
 				if n > before {
+					redialed = true
 					break
 				}
 				time.Sleep(5 * time.Millisecond)
+			}
+			ans.Elapsed = time.Since(start).Milliseconds()
+			if !redialed {
+				ans.Note = "no new connection within " + budget.String()
+				if c.K == "silent" && conn != nil {
+					conn.Close() // give up on the silent connection so that the rest of the run can proceed
+					waitConns := time.Now().Add(40 * time.Second)
+					for time.Now().Before(waitConns) {
+						rd.mu.Lock()
+						n := rd.conns
+						rd.mu.Unlock()
+						if n > before {
+							break
+						}
+						time.Sleep(5 * time.Millisecond)
+					}
+				}
 			}
 			ok := waitFor(3, 1)
 			ans.Fence = fence()
 			ans.Frames = rd.take()
 			if !ok {
-				ans.Note = "no SetReaderConfig seen after reconnect"
+				ans.Note += " no SetReaderConfig seen after " + c.K
+			}
+			d.devicesMu.RLock()
+			dev := d.activeDevices[devName]
+			d.devicesMu.RUnlock()
+			if dev != nil {
+				ans.Consts = dumpConsts(dev)
 			}
 		default:
 			ans = runCase(c)
 			ans.Fence = fence()
 			ans.Frames = rd.take()
 		}
+		rd.mu.Lock()
+		ans.Conn = rd.conns
+		rd.mu.Unlock()
 		b, _ := json.Marshal(ans)
 		w.Write(b)
 		w.WriteByte('\n')
